@@ -161,16 +161,16 @@ type storeReq struct {
 }
 
 type tlSummary struct {
-	ret        [][]retAtom  // per result index
-	pair       [2]int       // certified (value, flag) result pair or {-1,-1}
-	establish  [][2]int     // (table param [path empty], idx param) unshared on every return
-	estPaths   []string     // table path per establish entry
+	ret        [][]retAtom // per result index
+	pair       [2]int      // certified (value, flag) result pair or {-1,-1}
+	establish  [][2]int    // (table param [path empty], idx param) unshared on every return
+	estPaths   []string    // table path per establish entry
 	reqs       []storeReq
 	flagLoad   bool // returns P0.flags[P1]
 	flagLoadTP string
-	flagSet    bool // sets P0.flags[P1] = true
-	markAll    bool // sets every flag of P0 true
-	retTab     [][]string          // per result: roots ("P<k>..." or "L" for a table local to the callee) the returned pointer may denote
+	flagSet    bool              // sets P0.flags[P1] = true
+	markAll    bool              // sets every flag of P0 true
+	retTab     [][]string        // per result: roots ("P<k>..." or "L" for a table local to the callee) the returned pointer may denote
 	mutTab     map[string]string // table roots (parameter- or freevar-rooted, or unknown) whose content this function may change -> witness
 	done       bool
 }
@@ -198,20 +198,20 @@ type tlSite struct {
 }
 
 type tlEngine struct {
-	p     *Prog
-	lv    *tlLevel
-	own   *ownEngine
-	fns   []*ssa.Function
-	sums  map[string]*tlSummary // key: fn string + ctx
-	field map[string]atomSet    // global join per struct field "Type.field" (owned-ness only)
-	chanJ map[string]atomSet
-	sites map[string]*tlSite
-	order []string
-	ctxs  map[*ssa.Function]map[string]map[int]bool
-	changed bool
+	p          *Prog
+	lv         *tlLevel
+	own        *ownEngine
+	fns        []*ssa.Function
+	sums       map[string]*tlSummary // key: fn string + ctx
+	field      map[string]atomSet    // global join per struct field "Type.field" (owned-ness only)
+	chanJ      map[string]atomSet
+	sites      map[string]*tlSite
+	order      []string
+	ctxs       map[*ssa.Function]map[string]map[int]bool
+	changed    bool
 	localOwned map[string]bool // "fn|tab" -> slots of this local table are all owned (optimistic fixpoint)
-	curRound int
-	base     *tlEngine // level 64: the level-32 engine, whose verdicts summarise the 32-bit API used on buckets
+	curRound   int
+	base       *tlEngine // level 64: the level-32 engine, whose verdicts summarise the 32-bit API used on buckets
 }
 
 // slotArgWritten: may callee f change the content of the slot value passed as argument ai?
@@ -346,22 +346,22 @@ func (lv *tlLevel) isTableRef(t types.Type) bool {
 // ---- per-function state ----
 
 type tlFunc struct {
-	e      *tlEngine
-	fn     *ssa.Function
-	ctx    map[int]bool
-	ctxS   string
-	dead   map[*ssa.BasicBlock]bool
-	deadE  map[*ssa.BasicBlock]int // block -> index of its pruned successor edge (bool-constant context)
-	in     map[*ssa.BasicBlock]factSet
-	out    map[*ssa.BasicBlock]factSet // facts at block end (before edge gens)
-	prov   map[ssa.Value]atomSet
-	busy   map[ssa.Value]bool
-	roots  map[ssa.Value]string
-	rbusy  map[ssa.Value]bool
-	grp    map[ssa.Value]ssa.Value // union-find over slot-slice values
-	gstore map[ssa.Value][]ssa.Value
-	gsrc   map[ssa.Value][]ssa.Value
-	sum    *tlSummary
+	e       *tlEngine
+	fn      *ssa.Function
+	ctx     map[int]bool
+	ctxS    string
+	dead    map[*ssa.BasicBlock]bool
+	deadE   map[*ssa.BasicBlock]int // block -> index of its pruned successor edge (bool-constant context)
+	in      map[*ssa.BasicBlock]factSet
+	out     map[*ssa.BasicBlock]factSet // facts at block end (before edge gens)
+	prov    map[ssa.Value]atomSet
+	busy    map[ssa.Value]bool
+	roots   map[ssa.Value]string
+	rbusy   map[ssa.Value]bool
+	grp     map[ssa.Value]ssa.Value // union-find over slot-slice values
+	gstore  map[ssa.Value][]ssa.Value
+	gsrc    map[ssa.Value][]ssa.Value
+	sum     *tlSummary
 	hstores map[string][]string
 }
 
@@ -1406,7 +1406,7 @@ func (t *tlFunc) buildGroups() {
 	t.gstore = map[ssa.Value][]ssa.Value{}
 	t.gsrc = map[ssa.Value][]ssa.Value{}
 	type pend struct {
-		s, v ssa.Value
+		s, v   ssa.Value
 		spread bool
 	}
 	var stores []pend
